@@ -56,6 +56,36 @@ def mk_component(i, di, ri):
                      attachment_level="O" if ROLES[ri].name == "ATTRIBUTE" else None)
 
 
+def mk_component_src(i, di, cj, src, ri):
+    """how the data type is supplied: 0 local representation only, 1 the concept's core representation only, 2 both (local wins:
+    pysdmx defines Component.dtype as the local type if present, else the concept's, else String)"""
+    concept = Concept("C%d" % i) if src == 0 else Concept("C%d" % i, dtype=DTYPES[cj])
+    return Component(id="C%d" % i, required=True, role=ROLES[ri], concept=concept, local_dtype=None if src == 1 else DTYPES[di],
+                     attachment_level="O" if ROLES[ri].name == "ATTRIBUTE" else None)
+
+
+def two_sources(kind, di, cj, src, via_loader):
+    """1 measure component whose type comes from the local representation (di), the concept (cj) or both"""
+    kind, di, cj, src = pick(kind, 3), pick(di, len(DTYPES)), pick(cj, len(DTYPES)), pick(src, 3)
+    eff = cj if src == 1 else di
+    t = DOC_TYPE.get(DTYPES[eff].value)
+    with NoTracing():
+        st = mk_structure(kind, [mk_component_src(0, di, cj, src, 1)])
+    try:
+        if via_loader:
+            dss, _ = load_datasets(st)
+            got = [c.data_type for c in dss["DS_1"].components.values()]
+            from vtlengine.DataTypes import SCALAR_TYPES
+            return t is not None and got == [SCALAR_TYPES[t]]
+        j = to_vtl_json(st, "DS_1")
+        got = [c["type"] for c in j["datasets"][0]["DataStructure"]]
+        return t is not None and got == [t]
+    except InputValidationException:
+        return t is None
+    except Exception:
+        return False
+
+
 def mk_structure(kind, comps):
     cs = Components(comps)
     if kind == 0:
@@ -136,12 +166,61 @@ def warm():
                     if not one(k, di, ri, v):
                         bad.append((k, DTYPES[di].value, ROLES[ri].name, v))
     three(0, 1, 3, 0, 1, 2, False), three(1, 2, 5, 0, 0, 1, True)
+    for src in range(3):
+        for v in (False, True):
+            if not two_sources(1, 3, 9, src, v):
+                bad.append(("two_sources", src, v))
     return bad
 
 
 _W = warm()
 _IA._validate_json = lambda *a, **k: None
 ND = len(DTYPES)
+
+
+# representatives for the concept's core type when both representations are given: one per documented VTL type + undocumented ones
+REPS = []
+_seen = set()
+for _k, _d in enumerate(DTYPES):
+    _t = DOC_TYPE.get(_d.value)
+    if _t not in _seen:
+        _seen.add(_t)
+        REPS.append(_k)
+NR = len(REPS)
+
+
+def c_src_concept(kind: int, cj: int) -> bool:
+    """
+    pre: 0 <= kind < 3 and 0 <= cj < ND
+    post: _
+    """
+    return two_sources(kind, 0, cj, 1, False)
+
+
+def c_src_concept__reach(kind: int, cj: int) -> bool:
+    """
+    pre: 0 <= kind < 3 and 0 <= cj < ND
+    post: _
+    """
+    two_sources(kind, 0, cj, 1, False)
+    return False
+
+
+def c_src_both(di: int, r: int, via: bool) -> bool:
+    """
+    pre: 0 <= di < ND and 0 <= r < NR
+    post: _
+    """
+    return two_sources(1, di, REPS[pick(r, NR)], 2, via)
+
+
+def c_src_both__reach(di: int, r: int, via: bool) -> bool:
+    """
+    pre: 0 <= di < ND and 0 <= r < NR
+    post: _
+    """
+    two_sources(1, di, REPS[pick(r, NR)], 2, via)
+    return False
 
 
 def c_one_json(kind: int, di: int, ri: int) -> bool:
